@@ -314,6 +314,7 @@ def run(ctx):  # noqa: C901
     okg = any(flw.conds(f) and "builtins.len" in repr(N2(flw.conds(f)[-1][0])) and "('c', 2)" in repr(N2(flw.conds(f)[-1][0])) for _, f in res.raises)
     ctx.ob("R-GUARD", bm, "only two-outcome inequalities accepted", okg, "len(a_val) != 2 or len(b_val) != 2 raises" if okg else "two-outcome guard missing")
     # measurement operators a*I + (-1)^a P with 0-based perms exchanging 0 and x
+    n_ops = 0
     for n in walk_no_nested(bm.node):
         if isinstance(n, ast.Assign) and isinstance(n.targets[0], ast.Name) and n.targets[0].id in ("M", "N") and "permutation_operator" in unparse(n.value):
             t = N2(n.value)
@@ -321,5 +322,17 @@ def run(ctx):  # noqa: C901
             ok = t[0] == "+" and any(x[0] == "*" and ("n", who) in x[1] and any(y[0] == "call" and y[1] in ("numpy.eye", "numpy.identity") for y in x[1]) for x in t[1]) and \
                 any(x[0] == "*" and ("**", ("c", -1), ("n", who)) in x[1] and any(y[0] == "call" and str(y[1]).endswith("permutation_operator") for y in x[1]) for x in t[1])
             ctx.ob("R-ENUM", bm, f"outcome-{who} operator == {who}*I + (-1)^{who} * P", ok, "projector pair from the swap unitary" if ok else f"operator is {show(t)[:100]}", n)
+            n_ops += 1
+    if not n_ops:
+        ctx.ob("R-ENUM", bm, "outcome operators == o*I + (-1)^o * P", None, "the construction of the extended measurement operators is not in the recognised form", required=False)
+    # coefficient families: all five reach the objective matrix, and none is stored into an array typed by another
+    from ..dataflow import origins
+    from ..rules import r_dtype_cross_param
+    ogb = origins(bm)
+    data = ["joint_coe", "a_coe", "b_coe", "a_val", "b_val"]
+    missing = [p_ for p_ in data if p_ not in ogb.of_names({"obj_mat"})]
+    ctx.ob("R-LIVE", bm, "joint, marginal coefficients and outcome values all reach the objective matrix", not missing,
+           "5 families flow into obj_mat" if not missing else f"{missing} never reach obj_mat: those terms of the inequality are dropped")
+    r_dtype_cross_param(ctx, bm, params=data)
     from .npa_common import check_npa
     check_npa(ctx)
